@@ -1,4 +1,5 @@
 import MiVerif.Model.Commit
+import MiVerif.Gen.Commit
 /- correspondence driver for C07: every step of the real commit / purge functions of src/segment.c and of the arena allocation / free
    functions of src/arena.c, driven directly with OS refusals injected, is replayed through Model.Commit -/
 namespace C07Val
@@ -57,6 +58,33 @@ def segStep (s : Seg) (name : String) (D size : Nat) (ret : Bool) (calls refused
     if segMatches s' ob then (s', none) else (resync s ob, some ("state after schedule differs; " ++ describe s' ob))
   else (resync s ob, none)
 
+/-! the same steps through the functions generated from src/segment.c (translator validation for Gen/Commit.lean) -/
+def toGen (s : Seg) : GenC.SegSt :=
+  { commit := s.commit, purge := s.purge, os := s.os, expire := 1010, allowPurge := true, allowDecommit := true, info := s.info, slices := s.slices, base := s.base }
+def genMatches (σ : GenC.SegSt) (slices : Nat) (ob : Obs) : Bool := eqUpTo 512 σ.commit ob.c && eqUpTo 512 σ.purge ob.p && eqUpTo slices σ.os ob.o
+def genStep (s : Seg) (name : String) (D size : Nat) (ret : Bool) (refused : Nat) (gone : Bool) (ob : Obs) : Option String :=
+  let σ := toGen s
+  let p : Int := ((s.base + D : Nat) : Int); let sz : Int := (size : Int)
+  let osOk := refused == 0
+  if name == "commit" then
+    let r := GenC.mi_segment_commit σ p sz osOk 1000 10
+    if r.2 != ret then some s!"generated mi_segment_commit returns {r.2}, the code {ret}"
+    else if !genMatches r.1 s.slices ob then some "state after the generated mi_segment_commit differs from the code"
+    else none
+  else if name == "ensure" then
+    let r := GenC.mi_segment_ensure_committed σ p sz osOk 1000 10
+    if r.2 != ret then some s!"generated mi_segment_ensure_committed returns {r.2}, the code {ret}"
+    else if !genMatches r.1 s.slices ob then some "state after the generated mi_segment_ensure_committed differs from the code"
+    else none
+  else if name == "purge" then
+    let cands := [(false, false), (true, false), (true, gone)]
+    if cands.any (fun c => genMatches (GenC.mi_segment_purge σ p sz c.1 c.2).1 s.slices ob) then none
+    else some "no outcome of the OS purge makes the generated mi_segment_purge agree with the code"
+  else if name == "sched" then
+    let r := GenC.mi_segment_schedule_purge σ p sz 10 false false 1000 1 id
+    if genMatches r s.slices ob then none else some "state after the generated mi_segment_schedule_purge differs from the code"
+  else none
+
 /-! arena -/
 def maskOf (w : Nat) : Mask := fun k => w.testBit k
 structure AObs where
@@ -93,9 +121,11 @@ partial def loop (h : IO.FS.Stream) (seg : Option Seg) (ar : Option Arena) (mode
     match seg, parseMasks tl with
     | some s, some ob =>
       let (s', c) := segStep s name dd.toNat! size.toNat! (ret == "1") calls.toNat! refused.toNat! (gone == "1") ob
-      match c with
-      | some msg => complain msg; loop h (some s') ar mode (n + 1) (d + 1)
-      | none => loop h (some s') ar mode (n + 1) d
+      let cg := genStep s name dd.toNat! size.toNat! (ret == "1") refused.toNat! (gone == "1") ob
+      match c, cg with
+      | some msg, _ => complain msg; loop h (some s') ar mode (n + 1) (d + 1)
+      | none, some msg => complain ("[Gen/Commit.lean] " ++ msg); loop h (some s') ar mode (n + 1) (d + 1)
+      | none, none => loop h (some s') ar mode (n + 1) d
     | _, _ => loop h seg ar mode n d
   | ["I", delay] =>
     match parseA tl with
